@@ -1,54 +1,16 @@
 """C01 -- the generated loop nest computes the Einsum for every loop order and rank order.
-
-Decided by HFMachine!Verdict (clauses Err / OutputRestored / OutputCorrect) against EinsumSem.
-"""
+Decided by HFMachine!Verdict (clauses Err / OutputRestored / OutputCorrect) against EinsumSem."""
 import random
 
-import execpipe
 import families
-from common import seed, workdir
+from common import seed
+from checks._exec import run_exec, sample
 
 CLAUSES = ("Err:", "OutputCorrect", "OutputRestored")
 
 
-def relevant(c):
-    return c.startswith(CLAUSES)
-
-
-def build(specs, tier, rng, rep, cap=None, **kw):
-    items = []
-    for k, sp in enumerate(specs):
-        try:
-            e, m = execpipe.make_entry(sp["yaml"], sp["configs"], "%s#%d" % (sp["family"], k), tier=tier, rng=rng, cap=cap,
-                                       family=sp["family"], extra={k2: v for k2, v in sp.items() if k2 not in ("yaml", "configs", "family")}, **kw)
-        except execpipe.NotPython as ex:
-            rep.violation(dict(kind="compile", clause="Err: emitted text is not Python: " + str(ex), spec=sp["yaml"], text=ex.text, family=sp["family"]))
-            continue
-        except (ValueError, KeyError, AssertionError, NotImplementedError, AttributeError, IndexError, TypeError) as ex:
-            rep.cov["rejected_by_compiler"] += 1
-            rep.cov.setdefault("rejections", {}).setdefault(type(ex).__name__, 0)
-            rep.cov["rejections"][type(ex).__name__] += 1
-            continue
-        items.append((e, m))
-    return items
-
-
 def run(tier, rep):
     rng = random.Random(seed())
-    n = 120 if tier == "quick" else 1200
-    specs = families.goldens() + families.c01_core()
-    seen = set()
-    while len(specs) < n + 32:
-        sp = families.gen_c01(rng)
-        if sp["key"] in seen:
-            continue
-        seen.add(sp["key"])
-        specs.append(sp)
-    items = build(specs, tier, rng, rep, cap=60 if tier == "quick" else 400)
-    with workdir("C01") as wd:
-        execpipe.run_batch(items, rep, relevant, wd, "c01")
-    rep.cov["distinct_nontrivial"] = len({m["text"] for _, m in items})
-    rep.cov["rule"] = "fixed core (19 golden specifications + 13 hand-written shapes) + seeded sample of plain Einsums; distinct = distinct emitted texts"
-    for e, m in items[:2] + items[-2:]:
-        rep.sample({"spec": m["yaml"], "emitted": m["text"][:600], "inputs_tried": m["n_inputs"], "example_input": e["sups"][0][min(3, len(e["sups"][0]) - 1)]})
-    rep.assumptions += ["A1-A10 of DESIGN 7.2 (reference reading of the HiFiber API)", "bounded extents (2-3) and the listed input space"]
+    specs = families.goldens() + families.c01_core() + sample(families.gen_c01, rng, 120 if tier == "quick" else 1500)
+    run_exec("C01", tier, rep, specs, CLAUSES, cap_q=60, cap_t=400, rng=rng,
+             rule="fixed core (19 golden specifications + 13 hand-written shapes) + seeded sample of plain Einsums (products, sums, take, scalars, rank-0) with loop/rank orders")
